@@ -57,9 +57,10 @@ META = {
         "text": "Coq theorems over the hub transition system with a crash action anywhere in the schedule: acknowledged updates are committed, every database "
                 "entry is the committed update of its sequence number for ever, the newest update is always retained, a publish is acknowledged only after its "
                 "update is stored, a crash loses nothing committed and lastSeq/last id are recovered. Partial: bbolt's transaction is one atomic durable step "
-                "of the model (trusted); the tie to the code is graceful restarts in handler-level histories, kill-point enumeration is not built yet.",
+                "of the model (trusted). Tied to the code by exhaustive kill-point enumeration over the scheduling points of the instrumented sources (file reopened after "
+                "every kill) and by handler-level histories with restarts.",
         "design_ref": "DESIGN.md §5 C09", "note": HUB_NOTE,
-        "technique": "Coq proof (inductive invariant with crash transitions) + differential correspondence of histories with restarts evaluated in Coq",
+        "technique": "Coq proof (inductive invariant with crash transitions) + exhaustive kill-point enumeration and histories with restarts judged in Coq",
     },
     "C15": {
         "text": "Coq theorems over the hub transition system: after Close's critical section every indexed subscriber's channel is closed for ever (its handler "
